@@ -265,7 +265,11 @@ class CallMixin(object):
             for (rid, f), fv in list(st.heap.items()):
                 if rid == recv.id:
                     ns['old(self.%s)' % f] = self.deref_for_contract(fv, st)
-        pe = PureEval(ns, defs=callee.defs, funcs=self.contract_funcs(st))
+        st_pre = st
+
+        def old_eval(node):
+            return PureEval(dict(ns), defs=callee.defs, funcs=self.contract_funcs(st_pre)).ev(node)
+        pe = PureEval(ns, defs=callee.defs, funcs=self.contract_funcs(st), old_eval=old_eval)
         req = pe.boolean(callee.requires)
         self.add_oblig('pre[%s @ line %s]' % (callee.name, line), 'pre', st, req, pe.facts, line=line)
         st = st.clone()
@@ -274,7 +278,7 @@ class CallMixin(object):
         # exceptional exits
         rest = st
         for cls_name, cond in (callee.raises.items() if not (callee.refuses or callee.accepts) or callee.hints.get('raises_exact') else []):
-            pe2 = PureEval(ns, defs=callee.defs, funcs=self.contract_funcs(st))
+            pe2 = PureEval(ns, defs=callee.defs, funcs=self.contract_funcs(st), old_eval=old_eval)
             c = pe2.boolean(cond)
             rest2 = None
             for s2, t in self.fork(rest, c):
@@ -290,7 +294,7 @@ class CallMixin(object):
             # the contract does not characterise the raise condition exactly: it may raise (with one
             # of the declared classes) unless an `accepts` clause holds, and must raise when a
             # `refuses` clause holds
-            pe2 = PureEval(ns, defs=callee.defs, funcs=self.contract_funcs(st))
+            pe2 = PureEval(ns, defs=callee.defs, funcs=self.contract_funcs(st), old_eval=old_eval)
             raised = fresh('raised_' + callee.name.split('/')[-1], 'Bool')
             st = st.clone()
             for _, text in callee.refuses:
@@ -320,6 +324,17 @@ class CallMixin(object):
                     st.heap[(cur.id, 'val')] = self.havoc_value(self.deref_for_contract(cur, st), parts[1])
                     if cur.id in self.tracked_refs or recv.id in self.tracked_refs:
                         st.writes.append((cur.id, 'val', line))
+                elif isinstance(cur, RefV) and cur.kind == 'iter':
+                    # the iterator object may be advanced or replaced: some iterator at some position
+                    nid = self.new_id()
+                    nseq = fresh(parts[1] + '.seq', IntSeq)
+                    npos = fresh(parts[1] + '.pos')
+                    st.heap[(nid, 'seq')] = SeqV(nseq, 'list')
+                    st.heap[(nid, 'pos')] = IntV(npos)
+                    st.pc += [npos >= 0, npos <= z3.Length(nseq)]
+                    st.heap[(recv.id, parts[1])] = RefV(nid, 'iter')
+                    if recv.id in self.tracked_refs:
+                        st.writes.append((recv.id, parts[1], line))
                 else:
                     st.heap[(recv.id, parts[1])] = self.havoc_value(cur, parts[1])
                     if recv.id in self.tracked_refs:
@@ -368,7 +383,7 @@ class CallMixin(object):
                 ns2[g] = IntV(traj[g](res.n))
             ns2['NOUT'] = IntV(res.n)
             res.traj = traj
-        pe3 = PureEval(ns2, defs=callee.defs, funcs=self.contract_funcs(st))
+        pe3 = PureEval(ns2, defs=callee.defs, funcs=self.contract_funcs(st), old_eval=old_eval)
         for label, text in callee.ensures:
             st.pc.append(pe3.boolean(text))
         st.pc.extend(pe3.facts)
